@@ -384,7 +384,7 @@ func sprintf(f *Frame, in ssa.Instruction, args []SV, cc *ssa.CallCommon, st *St
 	// locate the varargs elements
 	var elems map[string]SV
 	vs := args[1].T
-	for _, v := range f.x.views {
+	for _, v := range st.views {
 		if strings.Contains(vs, v.ref+" ") || strings.HasSuffix(vs, v.ref) || c.sRef(vs) == v.ref {
 			elems = f.x.varargs[v.src.Ref]
 		}
